@@ -194,6 +194,48 @@ def check_project(chk, name, fname, content, fmt, opt, model, kind):
                     if undefined:
                         good = False
                         chk.violation(f"{tag}:enzo-macros:{fn}", f"patch file {fn} uses index macros that naunet_macros.h does not define: {sorted(undefined)[:6]}", {"case": name, "file": fn, "undefined": sorted(undefined)})
+            # the field-type enumeration of the patched typedefs.h: one identifier and one value per field, the
+            # end marker after all of them, one <alias>Density per species of the network
+            tdf = next((os.path.join(r_, f_) for r_, _, fs_ in os.walk(os.path.join(pdir, "enzo")) for f_ in fs_ if f_ == "typedefs.h"), None)
+            if tdf:
+                ttxt = open(tdf).read()
+                blk = ttxt[ttxt.index("const field_type"):]
+                blk = blk[: blk.index(";") + 1]
+                keep, lines_ = [True], []
+                for ln in blk.splitlines():
+                    t_ = ln.strip()
+                    if t_.startswith("#ifdef"):
+                        keep.append(keep[-1] and t_.split()[1] == "USE_NAUNET")
+                    elif t_.startswith("#ifndef"):
+                        keep.append(keep[-1] and t_.split()[1] != "USE_NAUNET")
+                    elif t_.startswith("#else"):
+                        keep[-1] = (not keep[-1]) and (len(keep) < 2 or keep[-2])
+                    elif t_.startswith("#endif"):
+                        keep.pop()
+                    elif keep[-1]:
+                        lines_.append(ln)
+                ents = re.findall(r"\b([A-Za-z_]\w*)\s*=\s*(\d+)", "\n".join(lines_))
+                names_ = [n for n, _ in ents]
+                vals_ = [int(v) for _, v in ents]
+                probs = []
+                dupn = sorted({n for n in names_ if names_.count(n) > 1})
+                if dupn:
+                    probs.append(f"field identifiers defined twice: {dupn[:6]}")
+                # (stock Enzo reuses a few small values for fields of different problem types; the values the patch
+                # adds for the network's species, 104 and above, and the end marker must be distinct)
+                dupv = sorted({v for v in vals_ if v >= 104 and vals_.count(v) > 1})
+                if dupv:
+                    probs.append(f"field values used twice: {[(v, [n for n, w in ents if int(w) == v]) for v in dupv[:4]]}")
+                fu = dict(ents).get("FieldUndefined")
+                if fu is None or any(v >= int(fu) for n, v in zip(names_, vals_) if n != "FieldUndefined"):
+                    probs.append(f"FieldUndefined = {fu} is not above every field value (max {max(v for n, v in zip(names_, vals_) if n != 'FieldUndefined')})")
+                missing = sorted(a for a in known if names_.count(a + "Density") != 1)
+                if missing:
+                    probs.append(f"species without exactly one <alias>Density field: {missing[:6]}")
+                if probs:
+                    chk.violation(f"{tag}:enzo-field-types", f"typedefs.h of the Enzo patch: {probs[:3]}", {"case": name, "problems": probs, "entries_tail": ents[-40:]})
+                else:
+                    chk.ok(f"{tag}:enzo-field-types")
             if good:
                 chk.ok(f"{tag}:enzo-tables")
             else:
